@@ -202,6 +202,17 @@ def _int(*a, **kw):
         m = MARK.fullmatch(a[0].strip())
         if m and m.group(1) in Markers.table:
             return Markers.table[m.group(1)]
+    if a and isinstance(a[0], core.SymFrac) and len(a) == 1 and not kw:
+        # int(x / 2^k): the float quotient is exact below 2^53, int() truncates toward zero
+        fr = a[0]
+        n, d = fr.num, fr.den
+        if d & (d - 1) == 0 and isinstance(n, SymInt) and -(1 << 53) < n.lo and n.hi < (1 << 53):
+            w = n.e.size() + 1
+            q = core._sx(n.e, w) / z3.BitVecVal(d, w)          # bvsdiv truncates toward zero
+            lo, hi = sorted((int(n.lo / d), int(n.hi / d)))
+            return SymInt(q, min(lo, 0) if n.lo < 0 else lo, max(hi, 0) if n.hi > 0 else hi)
+        _path().flag('int() of a symbolic quotient that is not exact')
+        raise EngineLimit('int() of a symbolic quotient')
     if a and isinstance(a[0], SymInt):
         if len(a) == 1 and not kw:
             return a[0]
